@@ -1,6 +1,6 @@
 (* C17 — the staircase theorem for sources whose built program has no repetition node. *)
 From Coq Require Import ZArith QArith List Bool Lia ZifyBool Setoid.
-Require Import QV.C17.Model QV.C17.Spec QV.C17.Proofs QV.C17.ProofsVM QV.C17.SimDefs QV.C17.ProofsSim4 QV.C17.ProofsSim6
+Require Import QV.C17.Model QV.C17.Spec QV.C17.Proofs QV.C17.ProofsVM QV.C17.SimDefs QV.C17.ProofsTr3 QV.C17.ProofsSim4 QV.C17.ProofsSim6
                QV.C17.ProofsBuild QV.C17.ProofsGuard.
 Import ListNotations.
 Local Open Scope Z_scope.
@@ -45,19 +45,23 @@ Theorem staircase_norep : forall C s fuel h t,
   plays h (fst (staircase s)) = true /\ Qeq_bool t (snd (staircase s)) = true.
 Proof. intros C s fuel h t HG. apply (staircase_gen false); auto. intros; discriminate. Qed.
 
+Lemma guard_rep_true : forall s, guard_C17_repetition_entry_state s = true.
+Proof.
+  intros s. unfold guard_C17_repetition_entry_state, rep_stable_src. destruct (build_program s); auto. apply rep_stable_true.
+Qed.
+
 Theorem staircase_rep : forall C s fuel h t,
-  guard_C17_built_ok true C s = true -> guard_C17_repetition_entry_state s = true ->
+  guard_C17_built_ok true C s = true ->
   pipeline fuel C s = Ok (h, t) ->
   plays h (fst (staircase s)) = true /\ Qeq_bool t (snd (staircase s)) = true.
-Proof. intros C s fuel h t HG HS. apply (staircase_gen true); auto. Qed.
+Proof. intros C s fuel h t HG. apply (staircase_gen true); auto. intros _. apply guard_rep_true. Qed.
 
 (* the staircase theorem with source-level hypotheses *)
 Theorem staircase_full : forall C s fuel h t,
   src_wf C s = true -> guard_C17_zero_factor_depth 0 s = true -> guard_C17_key_collision s = true ->
-  guard_C17_repetition_entry_state s = true ->
   pipeline fuel C s = Ok (h, t) ->
   plays h (fst (staircase s)) = true /\ Qeq_bool t (snd (staircase s)) = true.
-Proof. intros C s fuel h t HW HZ HK HS. apply staircase_rep; auto. apply built_ok_of_source; auto. Qed.
+Proof. intros C s fuel h t HW HZ HK. apply staircase_rep; auto. apply built_ok_of_source; auto. Qed.
 
 (* the statement of round 1 (Spec.v, two guards) is false of the model in two corner classes *)
 Definition wit_resolution : src :=
@@ -87,7 +91,7 @@ Qed.
 
 Lemma staircase_full_nonvacuous :
   src_wf 2 wit_good = true /\ guard_C17_zero_factor_depth 0 wit_good = true /\ guard_C17_key_collision wit_good = true /\
-  guard_C17_repetition_entry_state wit_good = true /\ exists h t, pipeline 1000 2 wit_good = Ok (h, t) /\ length h = 21%nat.
+  exists h t, pipeline 1000 2 wit_good = Ok (h, t) /\ length h = 21%nat.
 Proof.
   repeat split; try (vm_compute; reflexivity). eexists; eexists. split; vm_compute; reflexivity.
 Qed.
